@@ -137,6 +137,18 @@ fn check(c: &SummaryCase, obs: &mut Obs) -> Verdict {
             // in the re-run, although the full history has no mixed pair
             let rows: Vec<crate::gen::HRow> = l.sec_rows(sec);
             let k4 = e.contains("Found non-global split") && !super::c04::split_proximity_present(&rows) && rows.iter().any(|g| g.act == Act::Split && g.sd <= c.cut && rows.iter().any(|h| h.act == Act::Split && h.sd > c.cut && (h.td - g.td).whole_days().abs() <= 1));
+            // K6 (root cause, read off the full run): the summary states a holding as <shares> bought at <cost base / shares>; where that
+            // quotient has no 28-digit decimal form the product falls short of the cost base by a few 1e-28, and a later return of capital
+            // that uses up the WHOLE cost base (accepted in the full history, leaving exactly 0) is refused in the re-run by that margin
+            let k6 = e.contains("exceeds the current ACB") && {
+                let nums: Vec<Rat> = e.split(|ch| ch == '(' || ch == ')').filter_map(|t| Rat::parse(t.trim())).collect();
+                let tiny = nums.len() >= 2 && { let d = nums[0].sub(&nums[1]); d.is_pos() && Rat::ratio(1, 1_000_000_000_000i64).gt(&d) };
+                let at_cut: Vec<NRow> = f_all.iter().filter(|r| r.sd <= c.cut).cloned().collect();
+                let unrepresentable = last_status(&at_cut).values().any(|(bal, acb)| bal.is_pos() && acb.as_ref().map(|a| a.div(bal).to_decimal_string(28).is_none()).unwrap_or(false));
+                let uses_up_everything = f_all.iter().any(|r| r.act == Act::Roc && r.sd > c.cut && r.acb.as_ref().map(|a| a.is_zero()).unwrap_or(false));
+                tiny && unrepresentable && uses_up_everything
+            };
+            if k6 { return known_or_fail("F-10-K6", format!("{sec}: the summary plus the later rows is rejected: {e}\n{}", ctx())); }
             if k4 { return known_or_fail("F-10-K4", format!("{sec}: the summary plus the later rows is rejected: {e}\n{}", ctx())); }
             return known(sec, format!("{sec}: the summary plus the later rows is rejected: {e}\n{}", ctx()));
         }
